@@ -410,3 +410,68 @@ B('pB2_quoted_with_different_safe_sets', ['C07'], 'R07.a',
   (A, _SLASH, _slash2(bind="url_quote(normalize_path(url_path, route.is_branch), safe='/')", test='norm_path != url_quote(url_path)', piece='norm_path')))
 B('pB2_keyword_format_path_unquoted', ['C07'], 'R07.b', (A, _SLASH, _slash2(piece='norm_path')))
 B('pB2_keyword_format_query_before_path', ['C07'], 'R07.b', (A, _SLASH, _slash2(template="'{root}{query}?{path}'")))
+
+# ---------------------------------------------------------------------------------------------- second pass: total JSON encoding (R08.e)
+# the fallback renderer shares the to_* serialisers with the primary one: the JSON encoder they use must not raise on unknown values
+_TJ = ("        encoder = ClasticJSONEncoder(dev_mode=True, indent=indent,\n"
+       "                                     sort_keys=sort_keys, ensure_ascii=False,\n"
+       "                                     skipkeys=skipkeys)\n"
+       "        return encoder.encode(self.to_dict())\n")
+_MIME = "DEFAULT_MIME = 'text/plain'\n"
+_IMPORTS = "import sys\nimport datetime\n"
+_SHARED = ("        if (indent, sort_keys, skipkeys) == (2, True, True):\n"
+           "            encoder = _JSON_ENCODER\n"
+           "        else:\n"
+           "            encoder = ClasticJSONEncoder(dev_mode=True, indent=indent, sort_keys=sort_keys, ensure_ascii=False, skipkeys=skipkeys)\n"
+           "        return encoder.encode(self.to_dict())\n")
+_DFLT_HOOK = ("        if self.dev_mode:\n"
+              "            return repr(obj)\n"
+              "        raise TypeError('cannot serialize to JSON: %r' % obj)\n")
+T('pB2_twin_json_shared_encoder', ['C08'], (E, _TJ, _SHARED),
+  (E, _MIME, _MIME + "_JSON_ENCODER = ClasticJSONEncoder(dev_mode=True, indent=2, sort_keys=True, ensure_ascii=False, skipkeys=True)\n"))
+T('pB2_twin_json_shared_encoder_options_mapping', ['C08'], (E, _TJ, _SHARED),
+  (E, _MIME, _MIME + "_JSON_OPTIONS = {'dev_mode': True, 'indent': 2, 'sort_keys': True, 'skipkeys': True}\n"
+                     "_JSON_ENCODER = ClasticJSONEncoder(ensure_ascii=False, **_JSON_OPTIONS)\n"))
+T('pB2_twin_json_local_options_mapping', ['C08'],
+  (E, _TJ, "        opts = dict(dev_mode=True, indent=indent, sort_keys=sort_keys, skipkeys=skipkeys)\n        opts['ensure_ascii'] = False\n"
+           "        encoder = ClasticJSONEncoder(**opts)\n        return encoder.encode(self.to_dict())\n"))
+T('pB2_twin_json_inline_construction', ['C08'],
+  (E, _TJ, "        return ClasticJSONEncoder(dev_mode=True, indent=indent, sort_keys=sort_keys, ensure_ascii=False,\n"
+           "                                  skipkeys=skipkeys).encode(self.to_dict())\n"))
+T('pB2_twin_json_encoder_class_attribute', ['C08'],
+  (E, "    def to_json(self, indent=2, sort_keys=True, skipkeys=True):\n" + _TJ,
+      "    _json_encoder = ClasticJSONEncoder(dev_mode=True, indent=2, sort_keys=True, ensure_ascii=False, skipkeys=True)\n\n"
+      "    def to_json(self):\n        return self._json_encoder.encode(self.to_dict())\n"))
+T('pB2_twin_json_stock_encoder_repr_hook', ['C08'], (E, _IMPORTS, _IMPORTS + "import json\n"),
+  (E, _TJ, "        return json.dumps(self.to_dict(), default=repr, indent=indent, sort_keys=sort_keys, ensure_ascii=False, skipkeys=skipkeys)\n"))
+T('pB2_twin_encoder_hook_guard_inverted', ['C08'],
+  (RS, _DFLT_HOOK, "        if not self.dev_mode:\n            raise TypeError('cannot serialize to JSON: %r' % obj)\n        return repr(obj)\n"))
+T('pB2_twin_encoder_flag_is_a_parameter', ['C08'],
+  (RS, "    def __init__(self, **kw):\n        self.dev_mode = kw.pop('dev_mode', False)\n",
+       "    def __init__(self, dev_mode=False, **kw):\n        self.dev_mode = dev_mode\n"))
+B('pB2_json_shared_encoder_without_text_fallback', ['C08'], 'R08.e', (E, _TJ, _SHARED),
+  (E, _MIME, _MIME + "_JSON_DEFAULTS = {'indent': 2, 'sort_keys': True, 'skipkeys': True}\n"
+                     "_JSON_ENCODER = ClasticJSONEncoder(ensure_ascii=False, **_JSON_DEFAULTS)\n"))
+B('pB2_json_text_fallback_switched_off', ['C08'], 'R08.e', (E, _TJ, _TJ.replace('dev_mode=True', 'dev_mode=False')))
+B('pB2_json_local_options_without_flag', ['C08'], 'R08.e',
+  (E, _TJ, "        opts = dict(indent=indent, sort_keys=sort_keys, skipkeys=skipkeys)\n        opts['ensure_ascii'] = False\n"
+           "        encoder = ClasticJSONEncoder(**opts)\n        return encoder.encode(self.to_dict())\n"))
+B('pB2_json_stock_encoder', ['C08'], 'R08.e', (E, _IMPORTS, _IMPORTS + "import json\n"),
+  (E, _TJ, "        encoder = json.JSONEncoder(indent=indent, sort_keys=sort_keys, ensure_ascii=False, skipkeys=skipkeys)\n"
+           "        return encoder.encode(self.to_dict())\n"))
+B('pB2_json_dumps_without_hook', ['C08'], 'R08.e', (E, _IMPORTS, _IMPORTS + "import json\n"),
+  (E, _TJ, "        return json.dumps(self.to_dict(), indent=indent, sort_keys=sort_keys, ensure_ascii=False, skipkeys=skipkeys)\n"))
+B('pB2_json_dumps_clastic_encoder_without_flag', ['C08'], 'R08.e', (E, _IMPORTS, _IMPORTS + "import json\n"),
+  (E, _TJ, "        return json.dumps(self.to_dict(), cls=ClasticJSONEncoder, indent=indent, sort_keys=sort_keys, ensure_ascii=False)\n"))
+B('pB2_json_encoder_class_attribute_without_flag', ['C08'], 'R08.e',
+  (E, "    def to_json(self, indent=2, sort_keys=True, skipkeys=True):\n" + _TJ,
+      "    _json_encoder = ClasticJSONEncoder(indent=2, sort_keys=True, ensure_ascii=False, skipkeys=True)\n\n"
+      "    def to_json(self):\n        return self._json_encoder.encode(self.to_dict())\n"))
+B('pB2_encoder_text_fallback_only_for_some_values', ['C08'], 'R08.e',
+  (RS, _DFLT_HOOK, "        if self.dev_mode and isinstance(obj, Exception):\n            return repr(obj)\n"
+                   "        raise TypeError('cannot serialize to JSON: %r' % obj)\n"))
+B('pB2_encoder_flag_read_under_another_key', ['C08'], 'R08.e',
+  (RS, "        self.dev_mode = kw.pop('dev_mode', False)\n", "        self.dev_mode = kw.pop('debug', False)\n"))
+B('pB2_encoder_hook_delegates_to_stock', ['C08'], 'R08.e',
+  (RS, _DFLT_HOOK, "        if self.dev_mode and not isinstance(obj, type):\n            return repr(obj)\n"
+                   "        return super(ClasticJSONEncoder, self).default(obj)\n"))
